@@ -107,11 +107,25 @@ def impl(payload):
     return complib.variants(payload)
 
 
+def _split_hyps(model_ans):
+    """the model's answer without its trailing `(hyps tag…)` element, and the tags (see Drv/C06.lean)"""
+    if (isinstance(model_ans, list) and model_ans and isinstance(model_ans[-1], list) and model_ans[-1]
+            and model_ans[-1][0] == "hyps"):
+        return model_ans[:-1], [str(t) for t in model_ans[-1][1:]]
+    return model_ans, []
+
+
 def compare(model_ans, impl_ans):
     if isinstance(impl_ans, list) and impl_ans and impl_ans[0] in ("raised", "skip"):
         # the real compiler raised (C08's subject) or the case is outside the supported kind: nothing to compare
         return True
-    return model_ans == impl_ans
+    return _split_hyps(model_ans)[0] == impl_ans
+
+
+def model_stats(payload, model_ans):
+    """which decidable hypotheses of the BoundedTypesRemover / QuantifiersRemover theorems hold on the generated problem
+    (evaluated by the Lean driver, Core/Compile/Hyps.lean)"""
+    return ["thm-hyps:%s:%s" % (payload[1], t) for t in _split_hyps(model_ans)[1]]
 
 
 def nontrivial(payload, ans):
@@ -156,7 +170,7 @@ def shrink(payload):
     yield from complib.shrink_case(payload)
 
 
-EXTRA_PROPS = ["UPVerif.Props.C06Lift", "UPVerif.Props.C06Ground"]
+EXTRA_PROPS = ["UPVerif.Props.C06Lift", "UPVerif.Props.C06Ground", "UPVerif.Props.C06BTQR"]
 
 MANIFEST = {
     "level_text": ("Lean 4 theorems (Props/C06.lean): a generic forward-simulation theorem over abstract transition systems "
